@@ -255,6 +255,21 @@ def gen_blade(rng, levels):
             "ops": [], "region": ([-half] * 3, [half] * 3), "nodes": b.n, "min_feature": mf}
 
 
+def gen_octant_sphere(rng):
+    """Directed family for the acceleration volume tree (C04): a sphere in the cube [-4,4]^3 placed so that, for a
+    coarse volume tree (4x the mesh's min_feature), some level-1 cell of the volume tree is entered by the surface
+    through ONE octant only (all eight octants over the runs: the centre's signs are random)."""
+    b = Builder()
+    sg = [rng.choice([-1.0, 1.0]) for _ in range(3)]
+    c = [sg[i] * rng.choice([1.0, 1.0, 0.75, 1.25]) for i in range(3)]
+    r = rng.choice([2.3, 2.3, 2.2, 2.4, 1.9])
+    u = [b.sub(ax, b.const(cv)) for ax, cv in zip((b.X, b.Y, b.Z), c)]
+    d2 = b.add(b.add(b.un("square", u[0]), b.un("square", u[1])), b.un("square", u[2]))
+    node = b.sub(b.un("sqrt", d2), b.const(r))
+    return {"builder": b, "lines": b.lines, "root": node, "prims": [{"kind": ("octant-sphere", r, c)}], "ops": [],
+            "region": ([-4.0] * 3, [4.0] * 3), "nodes": b.n, "min_feature": rng.choice([0.25, 0.25, 0.3])}
+
+
 def min_feature_for_levels(rng, size, levels):
     """a min_feature for which Region::withResolution picks exactly `levels` subdivisions of `size`"""
     cell = size / (2 ** levels)
